@@ -1,3 +1,4 @@
+import Op2Proofs.GenTactics
 import Op2Model.Tile
 import Op2Model.Gen.Formulas
 import Op2Model.Gen.Layout
@@ -169,12 +170,13 @@ open Op2.Gen.Formulas in
 theorem castU_nat (n : Nat) (h : n < 2 ^ 64) : castU 64 (n : Int) = (n : Int) := by
   unfold castU; omega
 
-open Op2.Gen.Formulas in
+open Op2.Gen.Formulas Op2.GenTactics in
 /-- `Map::GetTileIndex`, as translated from the current source, is the model's ℕ formula
     for every coordinate whose index fits `size_t` -/
 theorem gen_GetTileIndex_eq (h x y : Nat) (hh : h < W32)
-    (hfit : ((x / 32) * h + y) * 32 + x % 32 < W64) :
+    (hfit : ((x / 32) * h + y) * 32 + x % 32 < W64) : gen_GetTileIndex_translated = true →
     gen_GetTileIndex (h : Int) (x : Int) (y : Int) = (tileIndexN h x y : Nat) := by
+  gen_guard =>
   unfold W32 W64 at *
   have r : x % 32 < 32 := Nat.mod_lt _ (by omega)
   unfold gen_GetTileIndex tileIndexN
